@@ -547,6 +547,104 @@ pub async fn c08_http(seed: u64, thorough: bool) {
         n_surplus_cases += 1;
     }
     h::emit_stat("surplus_server_cases", n_surplus_cases);
+    // (e) history on ONE reader: an earlier `read_chunks` stream that was dropped before its end, or that
+    // ended in an error in the middle of a body, must leave nothing behind - the next call on the same
+    // reader is judged (model and oracle) as if the reader were new
+    let n_seq = if thorough { 600 } else { 120 };
+    let mut n_seq_done = 0usize;
+    for i in 0..n_seq {
+        let dlen = 400usize;
+        let data = Arc::new(h::pattern(dlen));
+        // call 1: a group of adjacent chunks (one request); either dropped after k items or cut mid-body
+        let n1 = rng.range(2, 5) as usize;
+        let mut off = rng.range(0, 40);
+        let mut l1: Vec<(u64, usize)> = Vec::new();
+        for _ in 0..n1 {
+            let sz = rng.range(3, 20) as usize;
+            l1.push((off, sz));
+            off += sz as u64;
+        }
+        let total1: usize = l1.iter().map(|c| c.1).sum();
+        let fail_first = i % 2 == 1;
+        let script1 = if fail_first {
+            // some whole chunks and a part of the next one arrive, then the body is cut; no retries
+            let cut = l1[0].1 + 1 + rng.below((total1 - l1[0].1 - 1) as u64) as usize;
+            vec![Resp::Part(cut, vec![], true)]
+        } else {
+            vec![Resp::Full(vec![])]
+        };
+        let take = if fail_first { n1 + 1 } else { rng.range(1, n1 as u64 - 1) as usize };
+        // call 2: any list
+        let n2 = rng.range(1, 6) as usize;
+        let l2 = layout(&mut rng, n2, 25);
+        let mut script2: Vec<Resp> = Vec::new();
+        for _ in 0..=l2.len() {
+            script2.push(Resp::Full(if rng.chance(1, 2) { rand_frags(&mut rng, 30) } else { vec![] }));
+        }
+        if l2.iter().any(|(o, s)| *o as usize + *s > dlen) {
+            continue;
+        }
+        let req = format!("http 0 {} {} {}", dlen, chunks_token(&l2), script_token(&script2));
+        println!("TRY\thttp-sequence first={} {} then {}", chunks_token(&l1), if fail_first { "cut-mid-body" } else { "dropped-early" }, req);
+        srv.reset(data.clone(), script1);
+        let mut reader = HttpReader::from_url(srv.url().parse().unwrap()).retries(0).retry_delay(std::time::Duration::from_millis(0));
+        {
+            let mut stream = reader.read_chunks(l1.iter().map(|&(o, s)| ChunkOffset::new(o, s)).collect());
+            let mut got = 0;
+            while got < take {
+                match tokio::time::timeout(std::time::Duration::from_secs(20), stream.next()).await {
+                    Ok(Some(Ok(_))) => got += 1,
+                    Ok(_) => break,
+                    Err(_) => h::hung(&req),
+                }
+            }
+        }
+        srv.reset(data.clone(), script2);
+        let mut items: Vec<String> = Vec::new();
+        let mut exact = true;
+        {
+            let mut stream = reader.read_chunks(l2.iter().map(|&(o, s)| ChunkOffset::new(o, s)).collect());
+            let mut k = 0usize;
+            loop {
+                match tokio::time::timeout(std::time::Duration::from_secs(20), stream.next()).await {
+                    Ok(Some(Ok(b))) => {
+                        if k >= l2.len() || b[..] != data[l2[k].0 as usize..l2[k].0 as usize + l2[k].1] {
+                            exact = false;
+                        }
+                        items.push(format!("c{}", h::digest(&b)));
+                        k += 1;
+                    }
+                    Ok(Some(Err(HttpReaderError::UnexpectedEnd))) => {
+                        items.push("E".into());
+                        break;
+                    }
+                    Ok(Some(Err(_))) => {
+                        items.push("H".into());
+                        break;
+                    }
+                    Ok(None) => break,
+                    Err(_) => h::hung(&req),
+                }
+                if items.len() > l2.len() + 2 {
+                    break;
+                }
+            }
+            if k != l2.len() {
+                exact = false;
+            }
+        }
+        let log = srv.take_log();
+        if !exact {
+            h::emit_oracle_fail(
+                "second-read-on-the-same-reader-is-not-exactly-the-requested-ranges",
+                &format!("first={} {} then {}", chunks_token(&l1), if fail_first { "cut-mid-body" } else { "dropped-early" }, req),
+            );
+        }
+        h::emit_case(&req, &format!("items={} reqs={}", h::join(&items, ","), reqs_token(&log)));
+        n_seq_done += 1;
+        n_cases += 1;
+    }
+    h::emit_stat("sequences_on_one_reader_after_an_abandoned_or_failed_stream", n_seq_done);
     h::emit_stat("cases", n_cases);
     h::emit_stat("exhaustive_cases", n_exh);
     for (k, v) in kinds {
